@@ -82,6 +82,55 @@ def check_notequal_lookup(ctx, env, rule: str = "R1.notequal-lookup"):
         ctx.fail(rule, "NotEqual.as_sql", "custom NotEqual lookup not found")
 
 
+def _case_when_rule(ctx: Ctx, env):
+    """A lookup used as a value is wrapped as CASE WHEN <lookup> THEN true ELSE false: Django's When(condition) without `then` yields NULL
+    for matching rows (then=None), and a Case without `default` yields NULL for the others - `contains(a, 'x') eq true` then selects nothing.
+    Every When(...) / Case(...) built by the Django visitor is read off the syntax tree: then must be True, default must be False."""
+    import ast as _ast
+    repo = env.repo
+    ci = repo.classes.get(DJ)
+    if ci is None:
+        return
+
+    def truth(x):
+        if isinstance(x, _ast.Constant) and isinstance(x.value, bool):
+            return x.value
+        if isinstance(x, _ast.Call) and _ast.unparse(x.func).endswith("Value") and len(x.args) == 1 and isinstance(x.args[0], _ast.Constant) \
+                and isinstance(x.args[0].value, bool):
+            return x.args[0].value
+        return None
+    n = 0
+    for q in repo.mro(DJ):
+        c2 = repo.classes.get(q)
+        if c2 is None or not q.startswith("odata_query."):
+            continue
+        for name, fn in c2.methods.items():
+            for call in _ast.walk(fn):
+                if not isinstance(call, _ast.Call):
+                    continue
+                fname = _ast.unparse(call.func).rsplit(".", 1)[-1]
+                if fname in ("When", "Case") and (any(k.arg is None for k in call.keywords) or any(isinstance(a, _ast.Starred) for a in call.args)):
+                    raise AnalysisError(f"{c2.name}.{name}: `{_ast.unparse(call)[:60]}` passes its arguments through * / **: not read off the "
+                                        "syntax tree", c2.module.loc(call))
+                if fname == "When":
+                    n += 1
+                    then = next((k.value for k in call.keywords if k.arg == "then"), call.args[1] if len(call.args) >= 2 else None)
+                    if then is not None and truth(then) is None:
+                        raise AnalysisError(f"{c2.name}.{name}: When(..., then={_ast.unparse(then)}) - not a literal truth value", c2.module.loc(call))
+                    ctx.check(then is not None and truth(then) is True, "R4.case-when-yields-a-boolean", f"{c2.name}.{name}|When",
+                              f"`{_ast.unparse(call)[:80]}`: the value of a matching row is {'NULL (no then=)' if then is None else 'false'}, not true",
+                              c2.module.loc(call), "contains(title, 'x') eq true")
+                elif fname == "Case":
+                    n += 1
+                    default = next((k.value for k in call.keywords if k.arg == "default"), None)
+                    if default is not None and truth(default) is None:
+                        raise AnalysisError(f"{c2.name}.{name}: Case(..., default={_ast.unparse(default)}) - not a literal truth value", c2.module.loc(call))
+                    ctx.check(default is not None and truth(default) is False, "R4.case-when-yields-a-boolean", f"{c2.name}.{name}|Case",
+                              f"`{_ast.unparse(call)[:80]}`: the value of a non-matching row is {'NULL (no default=)' if default is None else 'true'}, not false",
+                              c2.module.loc(call), "contains(title, 'x') eq false")
+    ctx.analysed["case_when_calls"] = n
+
+
 def run(ctx: Ctx, env):
     repo = env.repo
     if DJ not in repo.classes:
@@ -262,6 +311,7 @@ def run(ctx: Ctx, env):
                 ctx.check(p.outcome == "return" and promoted == want_promote and restored, "R4.top-level-promotion", f"depth={depth}",
                           f"visit() entered at depth {depth}: promoted to Q: {promoted} (required {want_promote}); depth counter afterwards "
                           f"{getattr(final, 'v', final)!r} (required {depth})", vci.module.loc(vfn), "contains(title, 'x')")
+        _case_when_rule(ctx, env)
         er = repo.lookup_method(DJ, "_ensure_q")
         if er:
             eci, efn = er
